@@ -174,6 +174,10 @@ func c03Cases(tier string, seed int64) []core.Case {
 	}
 	for _, dotu := range []bool{true, false} {
 		dotu := dotu
+		cases = append(cases, core.Case{ID: fmt.Sprintf("second-answer-differs/dotu=%v", dotu), Run: func(ctx *core.Ctx) core.Result { return c03SecondAnswerDiffers(ctx, dotu) }})
+	}
+	for _, dotu := range []bool{true, false} {
+		dotu := dotu
 		cases = append(cases, core.Case{ID: fmt.Sprintf("error-texts-around-msize/dotu=%v", dotu), Run: func(ctx *core.Ctx) core.Result { return c03LongErrors(ctx, dotu) }})
 	}
 	for _, dotu := range []bool{true, false} {
@@ -186,6 +190,137 @@ func c03Cases(tier string, seed int64) []core.Case {
 	}
 	cases = append(cases, sharedFlushCases("C03", tier)...)
 	return cases
+}
+
+// c03SecondAnswerDiffers: the extra answer of a confused implementation is a *different* one (it answers, then reports
+// an error for the same request). (a) While the first answer still waits for the connection's writer: the one reply
+// that goes out is the first answer. (b) Long after the first answer went out, while another request's reply — packed
+// into the buffer the first one used — waits for the writer: that other reply goes out as its own implementation call
+// produced it.
+func c03SecondAnswerDiffers(ctx *core.Ctx, dotu bool) core.Result {
+	var res core.Result
+	s := NewSess(Config{Dotu: dotu, Msize: 8192, Maxpend: 8})
+	c := s.Dial()
+	defer func() {
+		s.Ctl.ReleaseAll()
+		c.Hangup()
+	}()
+	ver := "9P2000"
+	if dotu {
+		ver = "9P2000.u"
+	}
+	if r, err := c.Version(8192, ver, W); err != nil || r.Msg == nil {
+		res.Inconclusive = "c03: version failed"
+		return res
+	}
+	tag := uint16(0)
+	rpc := func(m *wire.Msg) *wire.Msg {
+		tag++
+		m.Tag = tag
+		r, err := c.Rpc(m, W)
+		if err != nil || r.Msg == nil {
+			return nil
+		}
+		return r.Msg
+	}
+	if a := rpc(&wire.Msg{Type: wire.Tattach, Fid: 1, Afid: wire.NOFID, Uname: "root", Nuname: 0}); a == nil || a.Type != wire.Rattach {
+		res.Inconclusive = "c03: attach failed"
+		return res
+	}
+	rpc(&wire.Msg{Type: wire.Twalk, Fid: 1, Newfid: 2, Wname: []string{"f"}})
+	rpc(&wire.Msg{Type: wire.Topen, Fid: 2, Mode: 2})
+	for round := 0; round < 12 && len(res.Violations) == 0; round++ {
+		ctx.Beat()
+		// (a) the writer is kept busy with an earlier reply; the request under test is answered, then "answered" with an error
+		tag++
+		first := &wire.Msg{Type: wire.Tstat, Fid: 1, Tag: tag}
+		hold := s.Ctl.HoldAt("send.dequeued", c.ID, int(first.Tag), sched.AnyTag, 20*time.Second)
+		s.Ops.SetPlan(c.ID, first.Tag, script.NewPlan())
+		_ = c.Send(first)
+		if !hold.WaitReached(W) {
+			res.Inconclusive = "c03: the writer never took the first reply"
+			hold.Release()
+			return res
+		}
+		tag++
+		m := []*wire.Msg{{Type: wire.Tstat, Fid: 2}, {Type: wire.Tread, Fid: 2, Offset: uint64(round), Count: 40}, {Type: wire.Twrite, Fid: 2, Offset: 1, Count: 3, Data: []byte("xyz")}}[round%3]
+		m.Tag = tag
+		plan := script.NewPlan()
+		plan.ThenError = fmt.Sprintf("second thoughts %d", round)
+		s.Ops.SetPlan(c.ID, m.Tag, plan)
+		seq0 := s.Log.Seq()
+		_ = c.Send(m)
+		waitFor(W, func() bool {
+			for _, ev := range s.Log.Snapshot(seq0) {
+				if ev.Kind == "exit" && ev.Conn == c.ID && ev.Tag == m.Tag {
+					return true
+				}
+			}
+			return false
+		})
+		hold.Release()
+		res.Evals++
+		c.WaitTag(first.Tag, W)
+		rp, err := c.WaitTag(m.Tag, W)
+		det := map[string]interface{}{"request": m.String(), "dotu": dotu, "round": round}
+		switch {
+		case err != nil || rp.Msg == nil:
+			res.Violate("C03;second-answer-differs;no-reply", "a request answered, and then answered with an error while the first answer was still queued, got no reply", det)
+		case rp.Msg.Type != m.Type+1:
+			res.Violate("C03;second-answer-differs;queued;reply-is-the-extra-answer", fmt.Sprintf("the implementation answered %s and then, extra, an error: the one reply is %s", wire.TypeName(m.Type+1), rp.Msg.String()), det)
+		}
+		c.Quiesce(W)
+		if extra := c.Pending(); len(extra) > 0 {
+			res.Violate("C03;second-answer-differs;surplus-reply", fmt.Sprintf("%d surplus replies", len(extra)), det)
+		}
+		// (b) an old request gives its extra answer while a newer request's reply waits in the buffer it used
+		tag++
+		old := &wire.Msg{Type: wire.Tstat, Fid: 1, Tag: tag}
+		s.Ops.SetPlan(c.ID, old.Tag, script.NewPlan())
+		if r := rpc2(c, old); r == nil || r.Type != wire.Rstat {
+			res.Inconclusive = "c03: old request failed"
+			return res
+		}
+		oldReq := s.Ops.Request(c.ID, old.Tag)
+		c.Quiesce(W)
+		tag++
+		newer := &wire.Msg{Type: wire.Tread, Fid: 2, Offset: uint64(100 + round), Count: 60, Tag: tag}
+		hold2 := s.Ctl.HoldAt("send.dequeued", c.ID, int(newer.Tag), sched.AnyTag, 20*time.Second)
+		s.Ops.SetPlan(c.ID, newer.Tag, script.NewPlan())
+		_ = c.Send(newer)
+		if !hold2.WaitReached(W) {
+			res.Inconclusive = "c03: the writer never took the newer reply"
+			hold2.Release()
+			return res
+		}
+		if oldReq != nil {
+			oldReq.RespondError(&go9p.Error{Err: fmt.Sprintf("late second thoughts %d", round), Errornum: 98})
+		}
+		hold2.Release()
+		res.Evals++
+		rp2, err2 := c.WaitTag(newer.Tag, W)
+		switch {
+		case err2 != nil || rp2.Msg == nil:
+			res.Violate("C03;second-answer-differs;late;no-reply", "a request whose reply was waiting for the writer while an older, answered request gave an extra answer got no reply", det)
+		case rp2.Msg.Type != wire.Rread || len(rp2.Msg.Data) != 60:
+			res.Violate("C03;second-answer-differs;late;other-reply-overwritten", fmt.Sprintf("an older request, answered long ago, was answered once more with an error; the reply of the request then waiting for the writer arrived as %s", rp2.Msg.String()), det)
+		}
+		c.Quiesce(W)
+		if extra := c.Pending(); len(extra) > 0 {
+			res.Violate("C03;second-answer-differs;late;surplus-reply", fmt.Sprintf("%d surplus replies", len(extra)), det)
+		}
+		res.Sig(fmt.Sprintf("second-answer-differs|%v|%d", dotu, round%3))
+	}
+	res.Sample(map[string]interface{}{"scenario": "an answer followed by a different (error) answer: while the first is queued; long after it, into a recycled buffer", "dotu": dotu})
+	return res
+}
+
+func rpc2(c *CConn, m *wire.Msg) *wire.Msg {
+	r, err := c.Rpc(m, W)
+	if err != nil || r.Msg == nil {
+		return nil
+	}
+	return r.Msg
 }
 
 // c03LongErrors: the implementation answers with error texts one byte shorter than, exactly as long as, and longer than
